@@ -2173,6 +2173,16 @@ copyOneHeaderFromClientsideRequestToUpstreamRequest(const HttpHeaderEntry *e, co
 {
     debugs(11, 5, "httpBuildRequestHeader: " << e->name << ": " << e->value );
 
+    // RFC 9110 section 7.6.1: a field nominated by the received Connection header
+    // is hop-by-hop, whatever forwarding rule the field has below. Content-Length
+    // and Host stay exempt: dropping those on a client's say-so would enable
+    // request smuggling and misrouting.
+    if (e->id != Http::HdrType::CONTENT_LENGTH && e->id != Http::HdrType::HOST &&
+            strConnection.size() > 0 && strListIsMember(&strConnection, e->name, ',')) {
+        debugs(11, 2, "'" << e->name << "' header cropped by Connection: definition");
+        return;
+    }
+
     switch (e->id) {
 
     /** \par RFC 2616 sect 13.5.1 - Hop-by-Hop headers which Squid should not pass on. */
@@ -2336,12 +2346,7 @@ copyOneHeaderFromClientsideRequestToUpstreamRequest(const HttpHeaderEntry *e, co
     default:
         /** \par default.
          * pass on all other header fields
-         * which are NOT listed by the special Connection: header. */
-        if (strConnection.size()>0 && strListIsMember(&strConnection, e->name, ',')) {
-            debugs(11, 2, "'" << e->name << "' header cropped by Connection: definition");
-            return;
-        }
-
+         * (those listed by the special Connection: header were dropped above). */
         hdr_out->addEntry(e->clone());
     }
 }
